@@ -29,7 +29,7 @@ def observe_record(cid, prog, o, pc0):
     """Reshape one asmdrive observation into the record AsmTrace.tla reads (no judging here)."""
     syms = [s for s in (o.get("symbols") or [])]
     ok = bool(o["ok"])
-    if ok and not G.assign_anon_scopes(prog, [s["path"] for s in syms]):
+    if ok and not G.assign_anon_scopes(prog, [s["path"] for s in syms], o.get("scopes")):
         return None
     return {"id": cid, "prog": G.tla_ready(prog), "pc0": pc0, "ok": ok,
             "syms": [{"path": s["path"], "ty": s["ty"], "kind": s["kind"], "val": s["val"]} for s in syms] if ok else [],
@@ -49,11 +49,14 @@ def design_level(rep, tier):
     if r.rc != 0 or "Error:" in r.out:
         raise V.ToolError("MC_Asm failed:\n" + V.tail(r.out, 40))
     rep.notes.append("MC_Asm (%s): %d distinct states, depth %d; invariants FixedPoint, Terminates hold" % (os.path.basename(cfg), r.distinct, r.depth))
-    for w in ("ok", "failed", "four"):
+    for w in ("ok", "failed", "four", "osc", "stale"):
         rv = V.tlc(mc, cfg=os.path.join(SPEC, "MC_Asm_vac_%s.cfg" % w), workers=4, timeout=600, tag="C02-vac-" + w)
         if not rv.invariant_violated:
             raise V.ToolError("vacuous MC_Asm space: no run reaches '%s'" % w)
-    rep.notes.append("vacuity witnesses: runs ending ok, ending failed and needing >= 4 passes all exist in the explored space")
+    rep.notes.append("vacuity witnesses: runs ending ok, ending failed and needing >= 4 passes all exist in the explored space; "
+                     "with a constant that shrinks as its label moves up (MC_Asm_vac_osc) TLC exhibits a program without any fixed point "
+                     "(`* = 97 / .text \"{c}\" / nop / .const c = 109 - b / b:`), which only the pass bound ends; in the pinned reading that keeps the "
+                     "symbols of earlier passes (MC_Asm_vac_stale) TLC refutes FixedPoint with a forward-reference `.if` that renumbers macro scopes")
 
 
 def main(tier):
@@ -62,15 +65,29 @@ def main(tier):
     design_level(rep, tier)
     rnd = V.rng("C02")
     nprog = 1500 if tier == "quick" else 12000
-    cases, progs = [], {}
+    cases, progs, pfiles = [], {}, {}
     for i in range(1, nprog + 1):
-        g = G.Gen(rnd, rnd.randrange(6, 40), segments=(i % 3 == 0))
-        prog = g.program()
+        files = {}
+        if i % 5 == 0:
+            # programs made of constructs (loops, conditionals - also on forward references -, macros, constants, scopes, imports):
+            # a successful build of those is a fixed point as well
+            prog, files = G.Gen7(rnd, depth=3).program()
+        else:
+            g = G.Gen(rnd, rnd.randrange(6, 40), segments=(i % 3 == 0))
+            prog = g.program()
         G.number_statements(prog)
+        for k, fn in enumerate(sorted(files), 1):
+            c = [100000 * k]
+
+            def f(st, scope):
+                c[0] += 1
+                st["n"] = c[0]
+            G.walk(files[fn], f)
         src = G.render(prog)
         pc0 = 0x2000
-        cases.append({"id": i, "files": {"main.asm": src}, "pc": pc0, "want": ["segments", "symbols", "vice", "passes"], "max_passes": 60})
+        cases.append({"id": i, "files": dict({fn: G.render(fp) for fn, fp in files.items()}, **{"main.asm": src}), "pc": pc0, "want": ["segments", "symbols", "vice", "passes"], "max_passes": 60})
         progs[i] = (prog, src, pc0)
+        pfiles[i] = files
     only = os.environ.get("C02_ONLY")          # diagnosis: restrict to some case ids (the generator stream stays the same)
     if only:
         keep = {int(x) for x in only.split(",")}
@@ -87,6 +104,7 @@ def main(tier):
             skipped += 1
             continue
         nok += rec["ok"]
+        rec["files"] = dict({fn: G.tla_ready(fp) for fn, fp in pfiles[o["id"]].items()}, **{"_": []})
         recs.append(V.clip_tree(rec))
     V.log("[C02] %d programs, %d built successfully, %d skipped (anonymous scopes not matchable)" % (len(cases), nok, skipped))
     if nok < len(cases) // 10:
@@ -100,7 +118,7 @@ def main(tier):
         if not rec["ok"]:
             # a rejected program: the machine must fail the same way; name its anonymous scopes from the last pass's table
             prog = progs[rec["id"]][0]
-            if not G.assign_anon_scopes(prog, [s["path"] for p in o["passes"] for s in p["symbols"]]):
+            if not G.assign_anon_scopes(prog, [s["path"] for p in o["passes"] for s in p["symbols"]], o.get("scopes")):
                 continue
             rec = dict(rec, prog=G.tla_ready(prog))
         pr = dict(rec)
